@@ -28,10 +28,13 @@ MODULES = {
     "C04": ("mcx.checks.c04", {}),
     "C06": ("mcx.checks.c06", {}),
     "C08": ("mcx.checks.c08", {}),
+    "C09": ("mcx.checks.c09", {}),
     "C10": ("mcx.checks.c10", {}),
     "C12": ("mcx.checks.c12", {}),
     "C13": ("mcx.checks.c13", {}),
     "C14": ("mcx.checks.c14", {}),
+    "C15": ("mcx.checks.c15", {}),
+    "C17": ("mcx.checks.c17", {}),
     "C19": ("mcx.checks.c19", {}),
 }
 
